@@ -8,8 +8,8 @@ pub const PALETTE: &[&str] = &[
     "](/u \"t\")", "<", ">", "<a>", "</a>", "<!--", "-->", "<?", "?>", "<![CDATA[", "]]>", "<div>", "</div>",
     "<script>", "</script>", "<xmp>", "<title>", "&", "&amp;", "&#35;", "&#x22;", "&copy;", "\\", "\\*", "\\\\", "\\|",
     "|", "||", "| a | b |", "|-|-|", "| :- | -: |", "|:-:|", "-", "--", "---", "- ", "+ ", "* ", "1. ", "1) ", "10. ",
-    "- [ ] ", "- [x] ", "#", "# ", "## ", "###### ", "####### ", "=", "===", ">", "> ", ">>> ", ">>>", "> [!NOTE]",
-    "> [!tip] T", ":", ": ", "::", "w", "www.a.b", "http://a.b", "https://a.b/c?d=e&f", "a@b.c", "mailto:a@b.c", "<http://x>",
+    "- [ ] ", "- [x] ", "#", "# ", "## ", "###### ", "####### ", "######\n", "#####", "#\n", "## \n", "###### #\n", "#\t", "=", "===", ">", "> ", ">>> ", ">>>", "> [!NOTE]",
+    "> [!tip] T", ":", ": ", "::", "://", ":// ", "://(x)", "//", "x://", "w", "www.", "www.a.b", "http://a.b", "https://a.b/c?d=e&f", "a@b.c", "mailto:a@b.c", "<http://x>",
     "<a@b.c>", "javascript:alert(1)", "data:text/html,x", "data:image/png;base64,x", "[[a]]", "[[a|b]]", "\"", "'", "\"a\"",
     "'a'", "...", "--", " ", "  ", "    ", "\t", "\n", "\n\n", "  \n", "\\\n", "\r\n", "\r", "\u{0}", "\u{feff}", "é", "世界",
     "\u{a0}", "\u{2028}", "𝄞", "İ", "\u{212a}", "!", "!!", "@", "%", "%20", "{", "}", "=", "+", "__a__", "*a*", "**a**",
@@ -20,7 +20,7 @@ pub const PALETTE: &[&str] = &[
 
 pub const HOSTILE: &[&str] = &[
     "\"", "'", "<", ">", "&", "`", "-->", "<!--", "\"><script>alert(1)</script>", "' onmouseover='x", "&quot;", "&#34;",
-    "javascript:alert(1)", "JaVaScRiPt:x", "vbscript:x", "file:///etc/passwd", "data:text/html;base64,PHNjcmlwdD4=",
+    "javascript:alert(1)", "JaVaScRiPt:x", "vbscript:x", "VBScript:x", "Vbscript:y", "FILE:x", "File:///x", "DATA:text/html,x", "Data:text/html,x", "file:///etc/passwd", "data:text/html;base64,PHNjcmlwdD4=",
     "data:image/png;base64,AAAA", "data:image/svg+xml,<svg/onload=x>", "&#106;avascript:x", "java\tscript:x", "%22%3E", "\\\"",
     "\u{0}", "\u{1}", "\u{7f}", "é\"", "]]>", "</code>", "</pre>", "</a>", "<xmp>", "</title >", "x\" y=\"z", "a b", "a\tb",
 ];
@@ -77,6 +77,12 @@ pub fn inline(r: &mut Rng, depth: usize) -> String {
 }
 
 fn url(r: &mut Rng) -> String {
+    if r.chance(1, 6) {
+        // a dangerous scheme in a random letter-case spelling
+        let (scheme, rest) = *r.pick(&[("javascript", ":alert(1)"), ("vbscript", ":x"), ("file", ":x"), ("data", ":text/html,x"), ("data", ":image/png;base64,AA")]);
+        let sp: String = scheme.chars().map(|c| if r.chance(1, 2) { c.to_ascii_uppercase() } else { c }).collect();
+        return format!("{}{}", sp, rest);
+    }
     r.ps(&[
         "/u", "http://a.b/c?d=e&f=g", "<a b>", "javascript:alert(1)", "JAVASCRIPT:x", "data:text/html,x", "data:image/png;base64,AA",
         "data:image/gif;x", "vbscript:x", "file:x", "x\"y", "a'b", "%41%zz", "é", "#frag", "",
@@ -110,7 +116,14 @@ pub fn block(r: &mut Rng, depth: usize) -> String {
     let k = if depth == 0 { r.below(12) } else { r.below(26) };
     match k {
         0..=3 => format!("{}\n", inlines(r)),
-        4 => format!("{} {}\n", "#".repeat(r.range(1, 6)), inlines(r).replace('\n', " ")),
+        4 => {
+            if r.chance(1, 6) {
+                // a heading without text: hashes directly before the line end, or before blanks / a closing sequence
+                format!("{}{}\n", "#".repeat(r.range(1, 6)), r.ps(&["", "", " ", "\t", " #", "  ##  "]))
+            } else {
+                format!("{} {}\n", "#".repeat(r.range(1, 6)), inlines(r).replace('\n', " "))
+            }
+        }
         5 => format!("{}\n{}\n", words(r), r.ps(&["===", "---", "="])),
         6 => r.ps(&["---\n", "***\n", "* * *\n", "___\n"]).to_string(),
         7 => {
